@@ -30,6 +30,10 @@ H = Harness("C10", ["OQ.Base.CaseEq", "OQ.Stats.Measure", "OQ.Stats.MeasureCases
             "'-c:int' = every coefficient a Python int, '-c:npint64'/'-c:npint32' = numpy integers, '-c:float+int' / "
             "'-c:complex+int' = integers with one float / one complex coefficient of zero imaginary part (at least two "
             "terms, about a third of the expval and history cases); "
+            "'-z:first/middle/last' = the operator contains one or two terms with a vanishing coefficient (0.0, -0.0, int 0, "
+            "1e-9, 1e-12, 2^-30, -2^-40) in that position next to ordinary, constant and repeated terms (about 45 percent of the "
+            "valid parities cases, 20 percent of expval and history); tallies, values and tables are compared per term in "
+            "order (row i belongs to term i, as many rows as terms); history cases also query the parity tallies; "
             "non-trivial = at least two distinct bitstrings among at least two shots (and at least two terms where an "
             "operator is involved)")
 
@@ -50,6 +54,9 @@ def pow2(n): return n >= 1 and n & (n - 1) == 0
 def mk_coef(c, ctype):
     """The numeric type a coefficient is handed to PauliTerm in (a generator dimension)."""
     fr = Fraction(*c)
+    if ctype == "negzero":
+        assert fr == 0
+        return -0.0
     if ctype == "float":
         return float(fr)
     if ctype == "complex":
@@ -159,6 +166,8 @@ def gen_history(rng):
     inp = dict(kind="history", shots=shots, steps=steps, op=op)
     if rng.random() < 0.3:
         inp["ctypes"] = gen_ctypes(rng, op, w)
+    if rng.random() < 0.2:
+        inp["ctypes"], inp["vanishing"] = gen_vanishing(rng, op, w, inp.get("ctypes"))
     return inp
 
 def gen_n(rng):
@@ -206,6 +215,43 @@ def gen_ctypes(rng, op, w):
         if ct in ("int", "npint64", "npint32"):
             t[0] = [rng.choice([-7, -3, -2, -1, 1, 1, 2, 3, 5, 12]), 1]
     return ctypes
+
+TINY = [Fraction(1e-9), Fraction(1e-12), Fraction(-1e-9), Fraction(1, 2 ** 30), Fraction(-1, 2 ** 40)]
+
+def gen_vanishing(rng, op, w, ctypes=None):
+    """Insert (in place) one or two terms whose coefficient is exactly 0.0, -0.0, int 0 or tiny (|c| <= 1e-8)
+    in first / middle / last position, next to ordinary terms; the new term sits on fresh qubits, repeats
+    another term's qubits, or is a constant.  Returns (ctypes, position label)."""
+    while len(op) < 2:
+        s = sorted(rng.sample(range(w), rng.randint(1, min(w, 2)))) if w else []
+        c = dyadic(rng, 16, 2, allow_zero=False)
+        op.append([[c.numerator, c.denominator], [[q, "Z"] for q in s]])
+        if ctypes is not None:
+            ctypes.append("float")
+    ctypes = list(ctypes) if ctypes is not None else ["float"] * len(op)
+    labels = []
+    for _ in range(rng.choice([1, 1, 1, 2])):
+        pos = rng.choice(["first", "middle", "last"])
+        i = 0 if pos == "first" else len(op) if pos == "last" else rng.randint(1, len(op) - 1)
+        r = rng.random()
+        if r < 0.2 or w == 0:
+            sup = []
+        elif r < 0.5:
+            sup = [q for q, _ in rng.choice(op)[1]]
+        else:
+            sup = sorted(rng.sample(range(w), rng.randint(1, min(w, 3))))
+        what = rng.choice(["zero", "zero", "negzero", "intzero", "tiny", "tiny"])
+        if what == "tiny":
+            c, ct = rng.choice(TINY), "float"
+        else:
+            c, ct = Fraction(0), {"zero": "float", "negzero": "negzero", "intzero": "int"}[what]
+        op.insert(i, [[c.numerator, c.denominator], [[q, "Z"] for q in sup]])
+        ctypes.insert(i, ct)
+        labels.append(pos)
+    return ctypes, "+".join(sorted(set(labels)))
+
+def zlabel(inp):
+    return "-z:" + inp["vanishing"] if inp.get("vanishing") else ""
 
 def gen_invalid(rng):
     """Inputs on which get_expectation_values / get_parities must not return statistics."""
@@ -279,6 +325,21 @@ FIXED = [
          bessel=False, as_term=False, ctypes=["int", "int", "float"]),
     dict(kind="expval", shots=["00", "01", "10", "00"], op=[[[2, 1], Z(0)], [[1, 1], Z(1)], [[3, 1], []]],
          bessel=True, as_term=False, ctypes=["int", "complex", "int"]),
+    # vanishing coefficients (0.0, -0.0, int 0, tiny) first / middle / last, next to ordinary, constant and repeated terms:
+    # every term keeps its own row, in order
+    dict(kind="parities", shots=["011", "110", "011", "100", "111"], op=[[[0, 1], Z(0)], [[1, 2], Z(1)], [[2, 1], Z(0, 1)], [[3, 1], []]],
+         why=None, ctypes=["float", "float", "float", "float"], vanishing="first"),
+    dict(kind="parities", shots=["011", "110", "011", "100", "111"], op=[[[1, 2], Z(1)], [[0, 1], Z(2)], [[2, 1], Z(0, 1)], [[5, 4], Z(1)]],
+         why=None, ctypes=["float", "negzero", "float", "float"], vanishing="middle"),
+    dict(kind="parities", shots=["011", "110", "011", "100", "111"], op=[[[1, 2], Z(1)], [[2, 1], Z(0, 2)], [[0, 1], Z(0)]],
+         why=None, ctypes=["float", "float", "int"], vanishing="last"),
+    dict(kind="parities", shots=["01", "10", "11", "01"], op=[[[Fraction(1e-9).numerator, Fraction(1e-9).denominator], Z(0)], [[1, 1], Z(1)],
+         [[Fraction(1e-12).numerator, Fraction(1e-12).denominator], []], [[1, 1], Z(0, 1)]],
+         why=None, ctypes=["float"] * 4, vanishing="first+middle"),
+    dict(kind="expval", shots=["011", "110", "011", "100"], op=[[[0, 1], Z(0)], [[1, 2], Z(1)], [[0, 1], Z(0, 1)], [[3, 1], []], [[0, 1], Z(2)]],
+         bessel=False, as_term=False, ctypes=["float", "float", "negzero", "float", "int"], vanishing="first+last+middle"),
+    dict(kind="expval", shots=["011", "110", "011", "100"], op=[[[1, 2 ** 30], Z(0)], [[1, 2], Z(1)], [[-1, 2 ** 40], Z(1)]],
+         bessel=True, as_term=False, ctypes=["float", "float", "float"], vanishing="first+last"),
     # one object queried, changed without changing the number of shots, queried again
     dict(kind="history", shots=["00", "00", "01", "00"], op=[[[1, 1], Z(0)], [[1, 2], Z(0, 1)], [[-3, 4], Z(1)]],
          steps=[dict(act="replace", shots=["11", "10", "11", "11"]), dict(act="edit", i=1, shot="01"),
@@ -314,6 +375,9 @@ def gen(rng, tier):
             inp = dict(kind="expval", shots=shots, op=op, bessel=rng.random() < 0.4, as_term=rng.random() < 0.3)
             if rng.random() < 0.35:
                 inp["ctypes"] = gen_ctypes(rng, op, w)
+            if rng.random() < 0.2:
+                inp["ctypes"], inp["vanishing"] = gen_vanishing(rng, op, w, inp.get("ctypes"))
+                inp["as_term"] = False
             yield inp
         elif r < 0.50:
             shots, op, why = gen_invalid(rng)
@@ -352,7 +416,10 @@ def gen(rng, tier):
             else:
                 w = rng.randint(1, 8)
                 shots, op, why = gen_shots(rng, w, gen_n(rng)), gen_op(rng, w, 4), None
-            yield dict(kind="parities", shots=shots, op=op, why=why)
+            inp = dict(kind="parities", shots=shots, op=op, why=why)
+            if why is None and rng.random() < 0.45:
+                inp["ctypes"], inp["vanishing"] = gen_vanishing(rng, op, w)
+            yield inp
         else:
             w = rng.randint(1, 8)
             rows = gen_shots(rng, w, rng.randint(1, 6))
@@ -387,7 +454,7 @@ def run_expval(inp, held=None):
     shots, op, bessel = inp["shots"], inp["op"], inp["bessel"]
     sh = [tup(s) for s in shots]
     n, m = len(sh), len(op)
-    exact = pow2(n) and (not bessel or n == 2)
+    exact = pow2(n) and (not bessel or n == 2) and all(abs(c[0]) < 2 ** 13 for c, _ in op)
     tol = Fraction(0) if exact else TOL
     with warnings.catch_warnings():
         warnings.simplefilter("ignore")
@@ -452,7 +519,7 @@ def run_expval(inp, held=None):
         kind += "-err-" + inp["why"]
     else:
         kind += ("-exact" if exact else "-tol") + ("-bessel" if bessel else "")
-    kind += ctype_label(inp.get("ctypes"))
+    kind += ctype_label(inp.get("ctypes")) + zlabel(inp)
     return dict(chk=chk, oracle_ok=not msgs, oracle_msg="; ".join(msgs[:3]), kind=kind, nontrivial=nontrivial)
 
 def run_efreq(inp):
@@ -547,7 +614,7 @@ def run_parities(inp):
     shots, op = inp["shots"], inp["op"]
     sh = [tup(s) for s in shots]
     n, m = len(sh), len(op)
-    st, out = outcome(lambda: get_parities_from_measurements(list(sh), mk_op(op)), timeout=20)
+    st, out = outcome(lambda: get_parities_from_measurements(list(sh), mk_op(op, False, inp.get("ctypes"))), timeout=20)
     ising = all(p == "Z" for _, ops in op for _, p in ops)
     w = len(shots[0]) if shots else 0
     valid = ising and all(q < w for _, ops in op for q, _ in ops)
@@ -557,18 +624,23 @@ def run_parities(inp):
         lit = cres(st, out, None)
         return dict(chk=f"parities_eqb {cshots(shots)} {cop(op)} {lit}" if lit else "false", oracle_ok=ok,
                     oracle_msg="" if ok else f"raised {out} on {'valid' if valid else 'invalid'} input", kind="parities-err", nontrivial=nontrivial)
-    vals = np.asarray(out.values).reshape(-1, 2) if m else np.zeros((0, 2))
+    vals = np.asarray(out.values)
+    vals = vals.reshape(-1, 2) if vals.size else np.zeros((0, 2))
     corr = np.asarray(out.correlations[0])
     msgs = []
     if not valid:
         msgs.append("tallies returned for an invalid input")
-    if vals.shape != (m, 2) or corr.shape != (m, m, 2) or len(out.correlations) != 1:
-        return dict(chk="false", oracle_ok=False, oracle_msg=f"shapes {vals.shape} {corr.shape}", kind="parities", nontrivial=nontrivial)
+    if corr.ndim != 3 or corr.shape[2:] != (2,) or len(out.correlations) != 1:
+        return dict(chk="false", oracle_ok=False, oracle_msg=f"shapes {vals.shape} {corr.shape}", kind="parities" + zlabel(inp), nontrivial=nontrivial)
     if np.any(vals != np.round(vals)) or np.any(corr != np.round(corr)):
         msgs.append("non-integral tallies")
     iv = [[int(round(float(x))) for x in row] for row in vals]
     ic = [[[int(round(float(x))) for x in cell] for cell in row] for row in corr]
-    if valid:
+    # row i belongs to term i: one row per term of the operator, in the operator's order
+    rows_ok = vals.shape == (m, 2) and corr.shape == (m, m, 2)
+    if not rows_ok:
+        msgs.append(f"{vals.shape[0]} rows of tallies and a {corr.shape[0]}x{corr.shape[1]} pair table for {m} terms")
+    if valid and rows_ok:
         Ss = [[q for q, _ in ops] for _, ops in op]
         ev = [[eig(S, s) == 1 for s in sh] for S in Ss]
         for i in range(m):
@@ -581,7 +653,7 @@ def run_parities(inp):
     czz = lambda p: cpair(cz(p[0]), cz(p[1]))
     lit = "(Ok (" + clist(iv, czz) + ", " + clist(ic, lambda row: clist(row, czz)) + "))"
     return dict(chk=f"parities_eqb {cshots(shots)} {cop(op)} {lit}", oracle_ok=not msgs, oracle_msg="; ".join(msgs[:3]),
-                kind="parities" + ("-edge-" + inp["why"] if inp.get("why") else ""), nontrivial=nontrivial)
+                kind="parities" + ("-edge-" + inp["why"] if inp.get("why") else "") + zlabel(inp), nontrivial=nontrivial)
 
 def run_check_parity(inp):
     rows, marked = inp["rows"], inp["marked"]
@@ -625,8 +697,9 @@ def run_history(inp):
         results = [run_distribution(dict(shots=held), m),
                    run_expval(dict(shots=held, op=op, bessel=False, ctypes=inp.get("ctypes")), m),
                    run_expval(dict(shots=held, op=op, bessel=True, ctypes=inp.get("ctypes")), m),
+                   run_parities(dict(shots=held, op=op, ctypes=inp.get("ctypes"))),
                    run_counts(dict(shots=held), m)]
-        for name, r in zip(("distribution", "expectation values", "expectation values (Bessel)", "counts"), results):
+        for name, r in zip(("distribution", "expectation values", "expectation values (Bessel)", "parity tallies", "counts"), results):
             chks.append(r["chk"] if r["chk"] is not None else "true")
             if not r["oracle_ok"]:
                 msgs.append(f"step {k} (after {act}) {name}: {r['oracle_msg']}")
@@ -634,7 +707,7 @@ def run_history(inp):
             msgs.append(f"step {k}: a query modified the stored shots")
     same = any(a in ("replace", "edit") for a in acts)
     return dict(chk=" && ".join(f"({c})" for c in chks), oracle_ok=not msgs, oracle_msg="; ".join(msgs[:3]),
-                kind="history" + ("-samecount" if same else "-growing") + ctype_label(inp.get("ctypes")),
+                kind="history" + ("-samecount" if same else "-growing") + ctype_label(inp.get("ctypes")) + zlabel(inp),
                 nontrivial=len(acts) >= 2 and len(set(inp["shots"])) >= 2 and len(op) >= 1)
 
 def _wide(inp, r):
